@@ -559,6 +559,11 @@ func (w *world) run(kind string, cfg *RunCfg, tag string) (r opResult) {
 			}
 			w.bl.KillConns() // the backend drops every connection while the call is pending
 			<-cmd.Done()
+			// the direct client session was cut as well; it may not have noticed yet
+			if w.direct != nil {
+				w.direct.Close()
+				w.direct = nil
+			}
 			st = cmd.Status()
 			slowRelease <- struct{}{}
 		}
